@@ -1878,6 +1878,11 @@ def _find_seq_storage(it, st, seqterm):
 def close_search_loop(it, frame, summ):
     r_ = _close_search_loop(it, frame, summ)
     if isinstance(r_, str):
+        r2 = _close_lockstep_loop(it, frame, summ)
+        if not isinstance(r2, str):
+            return r2
+        r_ = '%s; lockstep: %s' % (r_, r2)
+    if isinstance(r_, str):
         import os, sys
         if os.environ.get('VERIF_DEBUG_LOOP'):
             sys.stderr.write('SEARCH-LOOP not recognised in %s line %s: %s\n' % (frame.f['path'], summ.line, r_))
@@ -2002,4 +2007,154 @@ def _close_search_loop(it, frame, summ):
     out = {}
     out.setdefault(hits[0][0], []).append(rewrite(hits[0][1], hitval, True))
     out.setdefault(done[0][0], []).append(rewrite(done[0][1], bound, False))
+    return out
+
+
+def _range_bound(R, rpol, c):
+    """bound b such that the literal (R, rpol) says c < b"""
+    if R[0] != 'icmp':
+        return None
+    if R[2] == c:
+        op, b = R[1], R[3]
+        if (op == 'lt' and rpol) or (op == 'ge' and not rpol):
+            return b
+    if R[3] == c:
+        op, b = R[1], R[2]
+        if (op == 'gt' and rpol) or (op == 'le' and not rpol):
+            return b
+    return None
+
+
+def _close_lockstep_loop(it, frame, summ):
+    """SEARCH-LOOP, lockstep form: one or two forward cursors (slice iterators, slice views) that all advance by one element
+    per iteration while every one of them is in range and a test on the elements at the cursors holds
+    (`for (l, r) in a.zip(b) { if !p(l, r) { return false } }`, `loop { match (a.next(), b.next()) {…} }`).
+    With n_i the number of elements left to cursor i on entry, the loop leaves
+      · through the failed test            iff  found(zip, ¬test)           with every cursor at c0_i + firstidx (then advanced as the code does),
+      · because cursor sets E ran out        iff  ¬found ∧ (n_i = min n for i ∈ E, n_i > min n otherwise).
+    Returns {exit target: [states]} with those conditions as the exit guards and records a `search` event over the zipped domain."""
+    from .terms import subst_term, NF, subterms, term_str
+    if len(summ.back_states) != 1 or not summ.carried:
+        return 'no single back edge'
+    bs = summ.back_states[0]
+    st_head = summ.head_state
+    # cursors: every carried leaf must be a stream / slice view whose differing terms advance by one
+    cursors = []          # (head symbol, initial term)
+    for r, p, fv, iv in summ.carried:
+        cur = []
+        if isinstance(fv, Stream) and isinstance(iv, Stream):
+            if not _stream_cursors(iv, fv, cur) or not cur:
+                return 'carried stream changes shape'
+        elif isinstance(fv, SliceRef) and isinstance(iv, SliceRef):
+            if not _stream_cursors(iv, fv, cur) or not cur:
+                return 'carried slice changes storage'
+        else:
+            return 'carried leaf is neither a stream nor a slice view'
+        try:
+            bv = it.read(bs, r, p)
+        except Unsupported:
+            return 'back value unreadable'
+        adv = []
+        if not _stream_cursors(fv, bv, adv):
+            return 'back value changes shape'
+        step = {b_: a_ for b_, a_ in adv}
+        for orig, head in cur:
+            if step.get(head) != it.iadd(head, iconst(1)):
+                return 'cursor %s does not advance by one' % term_str(head)
+            cursors.append((head, orig))
+    if not (1 <= len(cursors) <= 2):
+        return '%d cursors' % len(cursors)
+    csyms = [c for c, _ in cursors]
+    lits = [(l[0], l[1]) for l in bs.guard]
+    tests = [(q, pol) for q, pol in lits if any(t[0] == 'elem' for t in subterms(q))]
+    ranges = [(q, pol) for q, pol in lits if (q, pol) not in tests]
+    if len(tests) != 1 or len(ranges) != len(cursors):
+        return 'back guard has %d tests and %d range literals for %d cursors' % (len(tests), len(ranges), len(cursors))
+    (Q, qpol) = tests[0]
+    bounds = {}
+    rlit = {}
+    for R, rpol in ranges:
+        hit = [c for c in csyms if _range_bound(R, rpol, c) is not None]
+        if len(hit) != 1 or hit[0] in bounds:
+            return 'range literal %s is not `cursor < bound`' % term_str(R)
+        bounds[hit[0]] = _range_bound(R, rpol, hit[0])
+        rlit[hit[0]] = _lit(R, rpol)
+    P = mk_not(Q) if qpol else Q          # the loop goes on while the test holds: it searches for ¬test
+    st0 = summ.entry_state
+    k = it.fresh_sym('ι')
+    nf = NF()
+    bases = []
+    for c, c0 in cursors:
+        elems = [t for t in subterms(P) if t[0] == 'elem' and c in set(subterms(t[2]))]
+        if not elems or len({(t[1], t[2]) for t in elems}) != 1:
+            return 'test does not look at exactly one element per cursor'
+        seqterm, e = elems[0][1], elems[0][2]
+        off = nf(e) - nf(c)
+        if not off.is_const() or off.const_value().denominator != 1:
+            return 'element index is not cursor + constant'
+        off = iconst(int(off.const_value()))
+        loc = _find_seq_storage(it, st0, seqterm)
+        if loc is None:
+            return 'storage of %s not found' % term_str(seqterm)
+        bases.append(Stream('src', (SliceRef(loc[0], loc[1], it.iadd(c0, off), it.iadd(bounds[c], off), False), 'ref')))
+    Pk = recanon(it, subst_term(P, {c: it.iadd(c0, k) for c, c0 in cursors}))
+    base = bases[0] if len(bases) == 1 else Stream('zip', (bases[0], bases[1]))
+    sterm = it.abstract(st0, base)
+    found = ('found', sterm, k, Pk)
+    idx = ('firstidx', sterm, k, Pk)
+    left = {c: it.isub(bounds[c], c0) for c, c0 in cursors}      # elements left on entry
+    # The last (incomplete) iteration happens at ι* = number of completed iterations.  Cases:
+    #   found                 : every cursor in range, the test fails, ι* = firstidx
+    #   ¬found, order of n_i  : ι* = min n_i; exactly the cursors with n_i = min are out of range
+    cases = []
+    hit_asg = {rlit[c]: True for c in csyms}
+    hit_asg[_lit(Q, qpol)] = False
+    cases.append((((found, True, None),), {found}, {c: it.iadd(c0, idx) for c, c0 in cursors}, hit_asg))
+    if len(csyms) == 1:
+        c = csyms[0]
+        cases.append((((found, False, None),), {mk_not(found)}, {c: bounds[c]}, {rlit[c]: False}))
+    else:
+        (ca, c0a), (cb, c0b) = cursors
+        na, nb = left[ca], left[cb]
+        for rel, asg, mp in ((mk_icmp('lt', na, nb), {rlit[ca]: False, rlit[cb]: True}, {ca: bounds[ca], cb: it.iadd(c0b, na)}),
+                             (mk_icmp('eq', na, nb), {rlit[ca]: False, rlit[cb]: False}, {ca: bounds[ca], cb: bounds[cb]}),
+                             (mk_icmp('gt', na, nb), {rlit[ca]: True, rlit[cb]: False}, {ca: it.iadd(c0a, nb), cb: bounds[cb]})):
+            cases.append((((found, False, None), (rel, True, None)), {mk_not(found), rel}, mp, asg))
+    out = {}
+    for t, ss in summ.exit_states.items():
+        for s_ in ss:
+            for newg, newf, mp, asg in cases:
+                bm = {}
+                for a_, v_ in asg.items():
+                    bm[a_] = TRUE if v_ else FALSE
+                    bm[mk_not(a_)] = FALSE if v_ else TRUE
+                # is this exit taken in this case?  its own decisions must agree with the case
+                feasible = True
+                keep = []
+                for l_ in s_.guard:
+                    g_ = _lit(l_[0], l_[1])
+                    v_ = bm.get(g_)
+                    if v_ == FALSE:
+                        feasible = False
+                        break
+                    if v_ is None:
+                        keep.append((recanon(it, subst_term(subst_term(l_[0], bm), mp)), l_[1], None))
+                if not feasible:
+                    continue
+                store = {}
+                for root, v in s_.store.items():
+                    v1 = it.subst_value(v, bm)
+                    store[root] = it.subst_value(v1, mp)
+                facts = set()
+                for f in s_.facts:
+                    if isinstance(f, tuple):
+                        f1 = subst_term(subst_term(f, bm), mp)
+                        if f1 not in (TRUE, FALSE):
+                            facts.add(f1)
+                out.setdefault(t, []).append(State(store, tuple(newg) + tuple(keep), frozenset(facts | newf)))
+    if not out:
+        return 'no feasible exit'
+    it.events.append({'kind': 'search', 'op': 'loop', 'fn': frame.f['path'], 'line': summ.line, 'stream': base, 'base': base, 'rev': False,
+                      'ivar': k, 'pred': Pk, 'idx': idx, 'found': found, 'from_loop': True})
+    summ.recognised = 'SEARCH-LOOP (lockstep)'
     return out
